@@ -355,11 +355,48 @@ def part_fault_enum(ctx):
         for m in re.finditer(r"r(\d+) =\s*(\[.*?\])\s*:\s*list", out, re.S):
             if m.group(2).strip() != "[]":
                 hi = int(m.group(1))
-                key = "retry-differs:" + labels[hi].split("@")[0]
+                sw = labels[hi].endswith("!swallowed")
+                key = ("swallowed-fault-differs:" if sw else "retry-differs:") + labels[hi].split("@")[0]
                 if key not in seen:
                     seen.add(key)
-                    p.violation(key, "after a fault and a retry (%s) the state differs from the model's prediction: %s" %
-                                (labels[hi], re.sub(r"\s+", " ", m.group(2))[:300]), dict(kind="fault-retry", label=labels[hi], coq_case=_extract_case(f, hi)))
+                    what = ("the operation reported success although statement %s failed, and what it left behind differs from a successful step of the model: %s"
+                            if sw else "after a fault and a retry (%s) the state differs from the model's prediction: %s")
+                    p.violation(key, what % (labels[hi], re.sub(r"\s+", " ", m.group(2))[:300]),
+                                dict(kind="fault-retry", label=labels[hi], coq_case=_extract_case(f, hi)))
+    return p
+
+
+def part_ordered_publish_faults(ctx):
+    """C05: a storage fault inside a Publish to an ordered subscription must not leave a delivery
+    without its predecessor link (the publish fails as a whole, or the chain is as the model says)"""
+    p = Part("ordered-publish-under-fault")
+    d = os.path.join(ctx["work"], "faultenum_c05")
+    rc, out = harness(["fault-enum", "-out", d, "-only", "publish-batch-ordered"], timeout=1500)
+    if rc != 0:
+        p.violation("harness-failed", "fault enumeration failed: " + out[-1500:], dict(log=out[-3000:]), found_input=False)
+        return p
+    info = json.load(open(os.path.join(d, "faultenum.json")))
+    res = info["results"]
+    p.evaluations = len(res)
+    p.traces = len(res)
+    p.nontrivial = sum(1 for r in res if r["errored"])
+    p.info = dict(statements=info["statements_per_operation"], swallowed=sum(1 for r in res if r.get("swallowed")))
+    labels = info["retry_labels"]
+    outs = coq_eval(sorted(glob.glob(os.path.join(d, "cases_*.v"))))
+    seen = set()
+    for f, (rc, out) in sorted(outs.items()):
+        if rc != 0:
+            p.violation("model-eval-failed", out[-600:], dict(log=out[-2000:]), found_input=False)
+            continue
+        for m in re.finditer(r"r(\d+) =\s*(\[.*?\])\s*:\s*list", out, re.S):
+            hi = int(m.group(1))
+            mm = re.sub(r"\s+", " ", m.group(2))
+            if mm.strip() != "[]" and ("d.not_before" in mm or "MDels" in mm):
+                key = "ordering-chain-under-fault"
+                if key not in seen:
+                    seen.add(key)
+                    p.violation(key, "publish of same-key messages to an ordered subscription with a failing statement (%s): the deliveries it left behind are not chained as the model says: %s" %
+                                (labels[hi], mm[:300]), dict(kind="fault-retry", label=labels[hi], coq_case=_extract_case(f, hi)))
     return p
 
 
@@ -724,7 +761,7 @@ def stream_part(own):
 STREAM_C11 = ("bound-messages", "bound-bytes", "stall", "head-of-line-limit", "fetch-spin", "harness-failed")
 STREAM_C03 = ("ack-not-completed",)
 STREAM_C01 = ("nack-completed",)
-STREAM_C04 = ("zero-deadline-not-immediate",)
+STREAM_C04 = ("zero-deadline-not-immediate", "lease-lost-at-stream-end")
 
 
 def _part_stream(ctx, own):
@@ -890,7 +927,7 @@ def claim_c17(kind, mm):
 
 def claim_c05(kind, mm):
     k = kind.split(":")[0]
-    return (k == "Publish" and "MDels" in mm) or (k == "Pull" and ("illegal-selection" in mm or "MResp" in mm)) or \
+    return (k == "Publish" and ("MDels" in mm or "MTime" in mm)) or (k == "Pull" and ("illegal-selection" in mm or "MResp" in mm)) or \
         (kind in ("Job:PruneCompletedDeliveries", "Job:PruneExpiredDeliveries") and "MDels" in mm) or \
         "d.not_before" in mm      # predecessor links written by any step (dead-letter forwards included)
 
@@ -956,8 +993,8 @@ CHECKS = {
         assumptions=BUS_ASSUME),
     "C05": dict(
         props=["C05"],
-        parts=[engine_part("delivery", 32, 600, 45, claim_c05, ["pull_keyed", "publish_batch"])],
-        rule="engine profile delivery: 40% ordered subscriptions, keys k1 k1 k2 k3 and un-keyed messages, single and batched publishes, pulls of size 1..100, acks in any order, nacks, "
+        parts=[engine_part("delivery", 32, 600, 45, claim_c05, ["pull_keyed", "publish_batch"]), part_ordered_publish_faults],
+        rule="[+ a Publish of three same-key messages to an ordered subscription behind an outstanding same-key message, with each of its statements failing in turn: the publish fails as a whole or the chain is as the model says; written times of a batch must increase strictly (hypothesis quiet of the theorem)] engine profile delivery: 40% ordered subscriptions, keys k1 k1 k2 k3 and un-keyed messages, single and batched publishes, pulls of size 1..100, acks in any order, nacks, "
              "lease and retention expiry, dead-lettering, seeks, prunes; owned projection: predecessor links written by Publish, Pull selection/response, link nulling by the delivery prunes; "
              "non-trivial = keyed messages pulled, batches",
         assumptions=BUS_ASSUME + ["history theorem under the environment hypotheses of Bus/T_C05.v (quiet, disciplined H1-H6)"]),
